@@ -1,4 +1,48 @@
+"""C20: update notifications are complete, ordered and only for committed changes. spec/KVTxn.tla + trace validation of
+recorded notification sequences (txn_common), and spec/EventBus.tla replayed on the real channel bus."""
+import json, os
+import vlib
 from checks import txn_common as tc
+
+EB = """SPECIFICATION Spec
+CONSTANTS Subs = {subs} Names = {{"update","merge"}} MaxSteps = {steps}
+{body}
+CHECK_DEADLOCK FALSE
+"""
+
+def event_bus(run, replay, thorough):
+    binary = run.build("busrun")
+    out = os.path.join(run.tmp, "busres.json")
+    if replay:
+        src = replay
+    else:
+        run.tlc("EventBus.tla", "mc_bus.cfg", workers=4, timeout=900,
+                cfg_text=EB.format(subs='{"s1","s2"}', steps=7 if thorough else 6, body="VIEW view\nINVARIANTS Fifo\nPROPERTIES NothingAfterClose ExactFanOut"), label="MC_EventBus")
+        src = os.path.join(run.tmp, "bus.ndjson")
+        run.tlc("EventBus_gen.tla", "gen_bus.cfg", mode="simulate", workers=1, sim="num=%d" % (3000 if thorough else 400), extra=["-depth", "8"], timeout=600,
+                env={"VERIF_OUT": src}, cfg_text=EB.format(subs='{"s1","s2","s3"}', steps=8, body="ACTION_CONSTRAINT ExportLeaves"), label="GEN_EventBus")
+        if not os.path.exists(src):
+            raise vlib.Infra("no event-bus behaviours exported")
+    run.run_driver(binary, ["-beh", src, "-out", out], timeout=1200)
+    r = json.load(open(out))
+    if r.get("harness_errors"):
+        raise vlib.Infra("busrun: " + r["harness_errors"][0])
+    return r
+
 def check(run, replay):
-    mine, cov = tc.check(run, replay, "C20")
+    thorough = run.tier == "thorough"
+    is_bus = False
+    if replay:
+        try:
+            is_bus = "closed" in json.dumps(json.load(open(replay)).get("behaviour_data", [{}])[0].get("obs", {}))
+        except Exception:
+            is_bus = False
+    mine, cov = ([], {"traces_validated_against_impl": 0, "samples": [["replay"]]}) if is_bus else tc.check(run, replay, "C20")
+    if not replay or is_bus:
+        r = event_bus(run, replay if is_bus else None, thorough)
+        mine += r.get("violations") or []
+        cov["traces_validated_against_impl"] += r["behaviours"]
+        cov["event_bus_behaviours"] = r["behaviours"]
+        cov["event_bus_comparisons"] = r["comparisons"]
+        cov["rule"] = cov.get("rule", "") + " | EventBus.tla: command sequences (subscribe with name sets incl. the wildcard, unsubscribe, publish, close) executed on a real channel bus; after every command what each subscriber received and whether its channel is closed equal the specification (a fence message tells when the command has been handled)"
     run.finish("model_checking", mine, cov, tc.ASSUME)
